@@ -5,8 +5,19 @@ from . import rules_live as live
 from . import rules_flow as flow
 from . import rules_stale as stale
 from . import rules_must as must
+from . import rules_config as cfg
 
 PROPERTIES = {
+    'C17': {
+        'rules': [cfg.rule_flow_config_names, cfg.rule_build_validate, cfg.rule_default_consts, cfg.rule_initcap_sink],
+        'explanation': 'Every configuration wire is followed by name through the type-checked program: builder setters change exactly their '
+                       'own field; build* validate (ttl, tti) before constructing; each argument / struct field / getter named X receives the '
+                       'value named X; the panic condition is exactly `d <= Duration::from_secs(1000*365*24*3600)` false; defaults are the '
+                       'documented constants (weight 1, unbounded => predicate true / evict 0); initial_capacity reaches only the map '
+                       'constructor and no branch.',
+        'decides': 'no crossed or dropped configuration wire, exact panic condition, documented defaults, initial_capacity unobservable',
+        'does_not_decide': 'behavioural equivalence of configurations as a whole',
+    },
     'C11': {
         'rules': [must.rule_unlink_both, stale.rule_admit_live, stale.rule_stale_removal, stale.rule_must_drain, must.rule_must_invalidate],
         'explanation': 'Exactly-once is Rust ownership everywhere except the raw-pointer list, so the check is about that boundary: every '
@@ -34,14 +45,14 @@ PROPERTIES = {
         'does_not_decide': 'HashMap/DashMap lookup correctness; that the latest insert wins under concurrency (C02)',
     },
     'C05': {
-        'rules': [live.rule_guard_live_ttl, must.rule_update_resets, must.rule_wo_node],
+        'rules': [live.rule_guard_live_ttl, must.rule_update_resets, must.rule_wo_node, cfg.rule_flow_config_names, cfg.rule_build_validate],
         'explanation': 'Every hit path of the 6 lookups establishes last_modified + time_to_live <= now == false (inclusive boundary) '
                        'on the returned entry with `now` read from the clock in the same call.',
         'decides': 'the inclusive ttl boundary test is applied by every lookup to the returned entry',
         'does_not_decide': 'clock monotonicity; DashMap guard atomicity between an update and a concurrent read',
     },
     'C06': {
-        'rules': [live.rule_guard_live_tti, fx.rule_pure_observers_ts, must.rule_update_resets],
+        'rules': [live.rule_guard_live_tti, fx.rule_pure_observers_ts, must.rule_update_resets, cfg.rule_flow_config_names],
         'explanation': 'Every hit path of the 6 lookups establishes last_accessed + time_to_idle <= now == false (inclusive) on the '
                        'returned entry; contains_key / iteration have no write effect on any timestamp store.',
         'decides': 'the inclusive tti boundary test is applied by every lookup; observers cannot extend the idle deadline',
